@@ -836,6 +836,8 @@ def _map_summary(func, call, g, summ, st, version):
         return version(st, Lin({atom.split("#")[0]: 1})) if "#" not in atom else Lin({atom + tag: 1})
 
     def map_lin(l):
+        if isinstance(l, tuple) and l and l[0] == "or":
+            return ("or", [map_lin(x) for x in l[1]], [map_lin(x) for x in l[2]])
         if isinstance(l, tuple):
             return (l[0], map_lin(l[1]))
         o = Lin(k=l.k)
@@ -891,6 +893,8 @@ def path_states(func, target_nid, init_hyps=None, max_paths=4000, header_hyps=No
     def version(st, l):
         if l is None:
             return None
+        if isinstance(l, tuple) and l and l[0] == "or":
+            return ("or", [version(st, x) for x in l[1]], [version(st, x) for x in l[2]])
         if isinstance(l, tuple):
             return (l[0], version(st, l[1]))
         if not st.epoch:
